@@ -12,6 +12,10 @@ BOUNDS = {'quick': (2, 2), 'thorough': (3, 2)}
 L = spaces.LINES + ['<!-- x -->', '> <!-- c', '> ```', '> <?p', '<x-y>']
 # B is additionally enumerated to 3 lines over the lines that read or write parser scratch state
 LB3 = ['<div>', '', 'foo', '```', '# h', '> q', '- a', '<!-- x -->', '===', '<x-y>']
+# family F2: A = X + blank line + closing paragraph (so that any X qualifies as "ending in a closed block"); X holds
+# look-aheads that are made but not consumed (indented table rows after a paragraph, ...)
+LX = ['foo', '    | a | b |', '    |---|---|', '| a | b |', '|---|---|', '- a', '  b', '> q', '```', '<div>', '    c', '']
+LBX = LB3 + ['  b', '| a | b |', '|---|---|']
 
 
 def describe(tier):
@@ -24,6 +28,10 @@ def jobs(tier):
     js = [(i, ka, kb, j, sub) for i in range(len(L)) for j in range(sub)]
     step = 82 if tier == 'quick' else 16
     js += [('spec', lo, lo + step, 1 if tier == 'quick' else 2) for lo in range(0, 652, step)]
+    if tier == 'quick':
+        js += [('f2', 'LX', i, j, 3) for i in range(len(LX)) for j in range(len(LX))]
+    else:
+        js += [('f2', 'L', i, j, 3) for i in range(len(L) + 2) for j in range(len(L) + 2)]
     return js
 
 
@@ -124,6 +132,20 @@ def run_job(job):
             for other in oneA:
                 judge(r, other, S)
         r.sample(dict(space='spec corpus as A and as B', examples=[lo + 1, hi]), 1)
+        return r
+    if job[0] == 'f2':
+        _, which, i, j, k = job
+        alpha = LX if which == 'LX' else L + ['    | a | b |', '    |---|---|']
+        Bs = [list(b) for n in (1, 2) for b in itertools.product(LBX, repeat=n) if b[-1].strip()]
+        Xs = [[alpha[i]]] if j == 0 else []
+        Xs += [[alpha[i], alpha[j]]] + [[alpha[i], alpha[j], x] for x in alpha]
+        for X in Xs:
+            if not X[0].strip() and len(X) > 1:
+                continue
+            A = X + ['', 'foo']
+            for B in Bs:
+                judge(r, A, B)
+        r.sample(dict(space='F2', A=[alpha[i], alpha[j], '', 'foo'], B=['- a', '  b']), 1)
         return r
     first, ka, kb, sub_j, sub_n = job
     idx = 0
